@@ -138,6 +138,7 @@ T2RVerdict(o) ==
   ELSE IF t = 44 THEN (IF o.err = ErrInvalidUseOfF80 THEN "" ELSE "t2r:f80")            \* "Invalid use of an 80-bit float"
   ELSE IF t \in 40..41 /\ RegSizeOf(a) = 4 THEN (IF o.err = ErrInvalidUseOfGpq THEN "" ELSE "t2r:gpq-in-32-bit")   \* "Invalid use of a 64-bit GPQ register in 32-bit mode."
   ELSE IF a = ArchA64 /\ t \in 45..50 THEN (IF ok /\ SigGet(DocLayout, sig, "reggroup") \notin GroupsFor(t) THEN "t2r:a64-mask-mmx" ELSE "")  \* no documented mapping: an error, or a register of the right kind
+  ELSE IF a = ArchA64 /\ BlockOf(t) # 0 /\ TypeSize(t) > 16 THEN (IF ok THEN "t2r:a64-vector-wider-than-128" ELSE "")   \* no 256/512-bit registers (trait table columns)
   ELSE IF ~ok THEN "t2r:natural-type-refused"
   ELSE IF o.tout # t THEN "t2r:type_id_out"                                            \* the deabstracted type
   ELSE IF sig # SigBitsOf(rtOut) THEN "t2r:signature-not-a-trait-signature"
